@@ -46,16 +46,12 @@ noncomputable def rayPoint (T : Tab K) (h : Nat) (θ : K) : List K :=
 theorem nth_map_range (f : Nat → K) (m k : Nat) (hk : k < m) : nth ((List.range m).map f) k = f k := by
   simp [nth, List.getD_eq_getElem?_getD, hk]
 
-/-- **`Unbounded` is genuine** (exact comparisons): below every bound `M` there is a non-negative solution. -/
-theorem unbounded_genuine {T : Tab K} {m n : Nat} (hC : Canon T m n) (hF : Feasible T) {c0 : List K}
-    (hO : ObjInv T c0) {prefer : List Nat} {bland : Bool} {e : SimplexErr}
-    (hs : stepInner (0:K) T prefer bland = .error e) (M : K) :
+/-- **the ray of a non-basic column with negative reduced cost and no positive entry**: non-negative solutions with
+objective below every bound. -/
+theorem ray_unbounded {T : Tab K} {m n : Nat} (hC : Canon T m n) (hF : Feasible T) {c0 : List K}
+    (hO : ObjInv T c0) {h : Nat} (hh1 : h < T.c.length) (hnb : h ∉ T.basis) (hch : nth T.c h < 0)
+    (hcol : ∀ i, i < T.a.length → nth (row T.a i) h ≤ 0) (M : K) :
     ∃ x : List K, x.length = n ∧ Sol T x ∧ (∀ j, 0 ≤ nth x j) ∧ dot c0 x < M := by
-  obtain ⟨-, h, hh, ht⟩ := stepInner_unbounded hs
-  obtain ⟨hh1, hh2, hh3⟩ := findH_spec hh
-  have hcol := col_nonpos_of_findT_none ht
-  have hch : nth T.c h < 0 := ((ExactK.flt_iff 0 _ 0).1 hh2).1
-  have hnb : h ∉ T.basis := by simpa using hh3
   -- far enough along the ray
   let θ : K := max 0 ((-T.value - M) / (-(nth T.c h)) + 1)
   have hθ0 : 0 ≤ θ := le_max_left _ _
@@ -128,6 +124,15 @@ theorem unbounded_genuine {T : Tab K} {m n : Nat} (hC : Canon T m n) (hF : Feasi
     have h2 : -T.value - M < θ * (-(nth T.c h)) := by
       rw [div_lt_iff₀ hneg] at h1; exact h1
     nlinarith
+
+/-- **`Unbounded` is genuine** (exact comparisons): below every bound `M` there is a non-negative solution. -/
+theorem unbounded_genuine {T : Tab K} {m n : Nat} (hC : Canon T m n) (hF : Feasible T) {c0 : List K}
+    (hO : ObjInv T c0) {prefer : List Nat} {bland : Bool} {e : SimplexErr}
+    (hs : stepInner (0:K) T prefer bland = .error e) (M : K) :
+    ∃ x : List K, x.length = n ∧ Sol T x ∧ (∀ j, 0 ≤ nth x j) ∧ dot c0 x < M := by
+  obtain ⟨-, h, hh, ht⟩ := stepInner_unbounded hs
+  obtain ⟨hh1, hh2, hh3⟩ := findH_spec hh
+  exact ray_unbounded hC hF hO hh1 (by simpa using hh3) ((ExactK.flt_iff 0 _ 0).1 hh2).1 (col_nonpos_of_findT_none ht) M
 
 /-- a one-row tableau whose basic column is a unit column is canonical (used by the non-vacuity examples). -/
 theorem canon_of_one_row (T : Tab K) (r : List K) (b0 : K) (j : Nat) (ha : T.a = [r]) (hb : T.b = [b0])
